@@ -196,8 +196,12 @@ class TGen:
                 x = self.fresh("s")
                 env.vars[x] = ("struct", sn)
                 return Decl(sn, x, None)
-            if c2 < 0.85:
+            if c2 < 0.8:
                 return self.assign(env)
+            if c2 < 0.85 and self.o["calls"] and self.funcs:
+                call = self.call(env, r.choice([f[2] for f in self.funcs]), 1)
+                if call:
+                    return ES(call)
             if c2 < 0.92 and self.o["side"]:
                 ws = self.scalars(env, INT, writable=True) + (self.scalars(env, FLOAT, writable=True) if self.o["floats"] else [])
                 if ws:
